@@ -166,3 +166,18 @@ META["C01"] = dict(
          "Directed cases pin the corners the property names (255 distinct queries, exemptions, wide traces, long sequences).",
     note="Sampling of an unbounded configuration space; the validity predicate of DESIGN.md 4.3 bounds what is generated.",
 )
+META["C02"] = dict(
+    technique="negative-side monitor: checker-classified trace corruptions and public-input edits through the release prover and the verifier",
+    text="Every corruption of a satisfying trace is first classified by the independent checker; false statements are "
+         "pushed through the real prover (release profile, which does not validate) and must not verify, while edits that "
+         "leave the statement true (free cells, fully exempt rows) must still verify, so exemptions are tested from both "
+         "sides. The rejecting check is recorded per case.",
+    note="Sampling; soundness is decided against the honest pipeline on false statements, not against all provers.",
+)
+META["C29"] = dict(
+    technique="differential monitor: Trace::validate vs an independent constraint checker on satisfying and corrupted traces; table-construction routes compared cell by cell",
+    text="validate() is run under panic capture on thousands of traces whose truth value is known from the independent "
+         "checker, in base and extension auxiliary fields; a disagreement in either direction, or a panic with any other "
+         "message, is a violation. fill / init / fragments are compared for every fragment length.",
+    note="Trusted: genair/checker.rs (70 lines) and refarith.rs.",
+)
